@@ -1,6 +1,7 @@
 package regular
 
 //vsym:pkg github.com/theparanoids/ysshra/gensign/regular
+//vsym:include regular/ctor.go || regular/ctor_bb.go
 //vsym:entry H01_run
 //vsym:model os.Stat m01Stat
 //vsym:model os.ReadFile m01ReadFile
@@ -76,6 +77,9 @@ func m01Which(name string) int {
 		return 2
 	}
 	g01ForeignAccess = true
+	if name == w01Dir+"/mallory.pub" {
+		return 3 // the directory also holds the other users' keys
+	}
 	return 0
 }
 
@@ -85,6 +89,8 @@ func m01State(name string) int {
 		return w01Pub
 	case 2:
 		return w01Bare
+	case 3:
+		return f01OtherUser // mallory's registered key (key 2)
 	}
 	return f01Absent
 }
@@ -406,6 +412,9 @@ func n01Setup() string {
 	}
 	write(w01LogName+".pub", w01Pub)
 	write(w01LogName, w01Bare)
+	if w01LogName != "mallory" {
+		write("mallory.pub", f01OtherUser)
+	}
 	return dir
 }
 
@@ -434,14 +443,15 @@ func H01_run() {
 	case 2:
 		policy = common.NamespacePolicy(vNondetString("policy", 4))
 	}
-	param := &csr.ReqParam{NamespacePolicy: policy, LogName: w01LogName, TransID: "t",
-		Attrs: &message.Attributes{HardKey: vNondetBool("hardkey")}}
+	// what the client claims about itself (another user's name) must not matter
+	param := &csr.ReqParam{NamespacePolicy: policy, LogName: w01LogName, TransID: "t", ReqUser: "mallory", ReqHost: "laptop",
+		Attrs: &message.Attributes{HardKey: vNondetBool("hardkey"), Username: "mallory", Hostname: "laptop"}}
 
 	if vIsNative() {
 		w01Dir = n01Setup()
 		defer os.RemoveAll(w01Dir)
 	}
-	real := h01Real{&Handler{agent: m01Agent{}, conf: &conf{PubKeyDir: w01Dir}}}
+	real := h01Real{rgNewHandler(0, m01Agent{}, nil, w01Dir)}
 	maxH := 2
 	if vThorough() {
 		maxH = 3
